@@ -116,15 +116,23 @@ func (s *hStore) Dequeue(queue.DequeueRequest) (queue.DequeueResponse, error) {
 }
 
 // verif:harness props=C11 tier=quick native=yes weight=15
-// verif:bounds each of Dequeue / Ack / Nack / Extend (well-formed requests) with Authorize answering arbitrarily and the endpoint configured or not
+// verif:bounds each of Dequeue / Ack / Nack / Extend (well-formed requests) with Authorize answering arbitrarily and the endpoint configured, not configured, or a non-canonical spelling of the configured one (trailing slash, double slash, dot segments); the endpoint string handed to Authorize and the one handed to route resolution are compared
 func VerifC11WorkerAuthorizeFirst() {
 	st := &hStore{}
 	s := NewServer(pullapi.NewServer(st))
 	authorized := vrt.Bool("authorized")
 	asked := 0
-	s.Authorize = func(context.Context, string) bool { asked++; return authorized }
-	s.ResolveRoute = func(endpoint string) (string, bool) { return "/r", endpoint == "/e" }
-	ep := []string{"/e", "/zz"}[vrt.Choose("endpoint", 2)]
+	var authFor, resolvedFor []string
+	s.Authorize = func(_ context.Context, endpoint string) bool {
+		asked++
+		authFor = append(authFor, endpoint)
+		return authorized
+	}
+	s.ResolveRoute = func(endpoint string) (string, bool) {
+		resolvedFor = append(resolvedFor, endpoint)
+		return "/r", endpoint == "/e"
+	}
+	ep := []string{"/e", "/zz", "/e/", "//e", "/e/.", "/zz/../e"}[vrt.Choose("endpoint", 6)]
 	ctx := context.Background()
 	var err error
 	switch vrt.Choose("op", 4) {
@@ -141,6 +149,14 @@ func VerifC11WorkerAuthorizeFirst() {
 		vrt.Cover("worker.store-touched")
 		vrt.Assert("C11.worker.queue-touched-only-after-authorize-said-yes", authorized && asked == 1 && ep == "/e")
 	}
+	// the endpoint whose credentials were checked is the endpoint that is served (no second spelling of it)
+	sameEndpoint := true
+	for _, a := range authFor {
+		for _, r := range resolvedFor {
+			sameEndpoint = sameEndpoint && a == r
+		}
+	}
+	vrt.Assert("C11.worker.authorized-endpoint-is-the-resolved-endpoint", sameEndpoint)
 	if !authorized {
 		vrt.Assert("C11.worker.unauthorized-is-Unauthenticated-and-touches-nothing", status.Code(err) == codes.Unauthenticated && st.calls == 0)
 	}
